@@ -158,14 +158,16 @@ def mk_inverse(TR, GG, mode, roundtrip=False):
             r = orig(k, angles, axis=axis, pre=pre, post=post); cap["k"].append(r); cap["pre"].append(pre); cap.setdefault("k_args", []).append((k, angles, axis, post)); return r
         orig_g2k = GG.g_to_k
         def g_to_k(*a, **kw):
-            r = orig_g2k(*a, **kw); cap["valid"] = r[2]; cap["g2k"] = (a, kw, r); return r
+            r = orig_g2k(*a, **kw); cap["valid"] = r[2]; cap["g2k"] = (a, kw, r); cap["ndom"] = len(CTX.domain); return r
         gz = [T(g[i, 0]) for i in range(3)]; gg = n2(gz)
         with ctx(TR, GG, [(GG, "np", rec)]):
             with patched(*([(GG, "k_to_g", k_to_g), (GG, "g_to_k", g_to_k)] + extra)):
                 tth, (eta1, eta2), (om1, om2) = TR.uncompute_g_vectors(g, lam, wedge, chi)
             valid = bool(cap["valid"][0])
             rb2, rb1 = rec.atan2_args[0]; den2 = T(rb1[0]) * T(rb1[0]) + T(rb2[0]) * T(rb2[0])
-            goals = [("D arcsin argument inside [-1, 1] (%d)" % i, z3.And(q >= -1, q <= 1)) for i, (_, q) in enumerate(CTX.domain)]
+            # arcsin domains: those of g_to_k (quot) directly; the one of uncompute_g_vectors itself (sin(theta) = |g| lambda / 2) directly for wedge = chi = 0 and,
+            # on the valid paths of the cut general run, through the Cauchy-Schwarz lemmas CS1-CS3 + glue (the direct NRA query stays unknown)
+            goals = [("D arcsin argument inside [-1, 1] (%d)" % i, z3.And(q >= -1, q <= 1)) for i, (_, q) in enumerate(CTX.domain) if not (mode == "P" and valid and i >= cap["ndom"])]
             k1, k2 = cap["k"][0], cap["k"][1]
             if valid:
                 for nm, k in (("1", k1), ("2", k2)):
@@ -221,7 +223,7 @@ def replay_inverse(TR, GG):
                 if not np.allclose(rt, g, rtol=1e-7, atol=1e-7 * max(gn, 1e-300)):
                     return True, "round trip of g=%s (lambda=%r wedge=%r chi=%r) returns %s" % (g[:, 0].tolist(), lam, wedge, chi, rt[:, 0].tolist())
             return False, "flagged valid, both round trips return g"
-        if any(float(a[0]) != 0 for a in (tth, e1, e2, o1, o2)): return True, "flagged invalid but angles not masked: %s" % ([float(a[0]) for a in (tth, e1, e2, o1, o2)],)
+        if any(float(a[0]) != 0 for a in (tth, e1, e2, o1, o2)): return True, "g=%s lambda=%r wedge=%r chi=%r is flagged invalid but tth, eta1, eta2, omega1, omega2 = %s are not all masked to 0" % (g[:, 0].tolist(), lam, wedge, chi, [float(a[0]) for a in (tth, e1, e2, o1, o2)])
         pre = None if post is None else GG.chiwedge(wedge=wedge, chi=chi).T
         oms = np.linspace(0, 360, 72001); ks = GG.k_to_g(np.repeat(g, len(oms), axis=1), oms, axis=[0, 0, 1], pre=pre)
         f = 2 * ks[0] + lam * gn * gn
@@ -285,8 +287,12 @@ def mk_LL(TR, GG):
             r0, r1, r2, K = head(g, lam, axis=[0, 0, -1], pre=None, post=Pm)
             k = GG.k_to_g(g, ox, axis=[0, 0, 1], pre=Qm.T)
             c, s_ = T(NP.cos(NP.radians(ox))[0]), T(NP.sin(NP.radians(ox))[0])
+            with ctx(TR, GG): kk = GG.k_to_g(g, ox, axis=[0, 0, 1], pre=None)
+        v = [T(kk[i, 0]) for i in range(3)]
         goals = [("LL k_x(omega) = lambda (rbda0 + rbda1 sin(omega) - rbda2 cos(omega)) for every omega", T(k[0, 0]) == lam.t * (T(r0[0]) + T(r1[0]) * s_ - T(r2[0]) * c)),
-                 ("LL kdotbeam = -|g|^2 / 2", 2 * T(K[0]) == -n2(gz))]
+                 ("LL kdotbeam = -|g|^2 / 2", 2 * T(K[0]) == -n2(gz)),
+                 ("CS1 the omega rotation of k_to_g preserves length: |R(omega) g|^2 = |g|^2", n2(v) == n2(gz)),
+                 ("CS2 k_x = (row 0 of the pre-rotation) . (R(omega) g)", T(k[0, 0]) == sum(T(Qm[j, 0]) * v[j] for j in range(3)))]
         inputs = dict(g0=gz[0], g1=gz[1], g2=gz[2], lam=lam.t, p0=T(Pm[0, 0]), p1=T(Pm[0, 1]), p2=T(Pm[0, 2]))
         return dict(goals=goals, inputs=inputs)
     return run
@@ -295,7 +301,11 @@ def mk_glue():
     def run():
         R0, A, B, K, s, c, kx, lam, gg = [z3.Real(n) for n in ("R0", "A", "B", "K", "s", "c", "kx", "lam", "gg")]
         CTX.hyp += [lam > 0, kx == lam * (R0 + A * s - B * c), 2 * K == -gg]
-        goals = [("glue SL + LL => solution on the Ewald sphere (2 k_x = -lambda |g|^2)", z3.Implies(A * s - B * c == K - R0, 2 * kx == -lam * gg)),
+        pv = [z3.Real("cs_p%d" % i) for i in range(3)]; vv_ = [z3.Real("cs_v%d" % i) for i in range(3)]; ds, pp, vv = z3.Real("ds"), z3.Real("pp"), z3.Real("vv")
+        goals = [("CS3 Cauchy-Schwarz (p.v)^2 <= |p|^2 |v|^2", dot3(pv, vv_) * dot3(pv, vv_) <= n2(pv) * n2(vv_)),
+                 ("glue S1 + CS1-3 => a vector flagged valid has |g| lambda / 2 in [0, 1] (domain of the arcsin that gives tth)",
+                  z3.Implies(z3.And(kx * kx <= pp * vv, pp == 1, vv == gg, 2 * kx == -lam * gg, ds >= 0, ds * ds == gg), z3.And(ds * lam / 2 <= 1, ds * lam / 2 >= -1))),
+                 ("glue SL + LL => solution on the Ewald sphere (2 k_x = -lambda |g|^2)", z3.Implies(A * s - B * c == K - R0, 2 * kx == -lam * gg)),
                  ("glue SL + LL => no solution of the scalar equation, no rotation reaches the sphere", z3.Implies(A * s - B * c != K - R0, 2 * kx != -lam * gg))]
         return dict(goals=goals, inputs={})
     return run
